@@ -109,7 +109,9 @@ CHECKS = {
         text="FileLayout.tla is an independent reader of Parquet files written in TLA+ from the format documents: it parses "
              "the footer and every page header with Thrift.tla, decompresses with Snappy.tla, checks CRC-32, decodes levels "
              "and values with Encodings.tla and re-derives every offset, size, value/row/null count, encoding list and "
-             "statistics, page-index entry, bloom-filter frame and row-group total; the regions it finds must tile the file. "
+             "statistics, page-index entry, bloom-filter frame and row-group total, the min/max bounds and null counts of page "
+             "headers, column index and chunk statistics against the values it decoded, and the size statistics (level "
+             "histograms, unencoded byte counts); the regions it finds must tile the file. "
              "TLC-simulated writer histories x option vectors are executed directly and through WriteRowGroup (copy and "
              "re-encode); the harness passes rows with levels it computed itself, logs the file bytes and the streams "
              "written, and LayoutMon.tla makes TLC read each file and compare.",
